@@ -3,11 +3,17 @@ package wcsync
 import (
 	"crypto/sha256"
 	"encoding/binary"
+	"errors"
 	"fmt"
 	"os"
+	"path/filepath"
+	"runtime"
+	"strings"
 	"sync"
+	"sync/atomic"
 	"time"
 
+	"github.com/btcsuite/btcd/btcec/v2"
 	"github.com/btcsuite/btcd/btcutil"
 	"github.com/btcsuite/btcd/chaincfg"
 	"github.com/btcsuite/btcd/chaincfg/chainhash"
@@ -118,15 +124,106 @@ func (e *wenv) startSync(timeout time.Duration) bool {
 	return c.send(sentinel{})
 }
 
+// stopTimeout bounds Loader.UnloadWallet (Stop + WaitForShutdown + db.Close).  A shutdown that does not come back
+// (wallet goroutine blocked for ever) must not hang the harness: the database file is copied to a fresh directory and
+// the case goes on from there; the blocked wallet object is abandoned.
+var stopTimeout = 20 * time.Second
+
+// stopHangs counts abandoned shutdowns (reported on stderr; see notes/C15.md "shutdown").
+var stopHangs int32
+
 func (e *wenv) stop() {
 	if e.w == nil {
 		return
 	}
 	if e.loader != nil {
-		_ = e.loader.UnloadWallet()
+		l := e.loader
+		done := make(chan struct{})
+		go func() {
+			_ = l.UnloadWallet()
+			close(done)
+		}()
+		select {
+		case <-done:
+		case <-time.After(stopTimeout):
+			n := atomic.AddInt32(&stopHangs, 1)
+			fmt.Fprintf(os.Stderr, "wcsync: wallet shutdown did not return within %s (hang #%d); continuing on a copy of the database\n", stopTimeout, n)
+			fmt.Fprintf(os.Stderr, "wcsync: ops of the case so far:\n  %s\n", strings.Join(recentOps, "\n  "))
+			if n == 1 {
+				buf := make([]byte, 1<<20)
+				buf = buf[:runtime.Stack(buf, true)]
+				for _, g := range strings.Split(string(buf), "\n\n") {
+					if strings.Contains(g, "btcwallet/wallet.") {
+						fmt.Fprintf(os.Stderr, "%s\n\n", g)
+					}
+				}
+			}
+			if nd, err := os.MkdirTemp("", "wcsync"); err == nil {
+				if data, err := os.ReadFile(filepath.Join(e.dir, wallet.WalletDBName)); err == nil {
+					_ = os.WriteFile(filepath.Join(nd, wallet.WalletDBName), data, 0600)
+				}
+				e.dir = nd
+			}
+		}
 	}
 	e.w = nil
 	e.running = false
+}
+
+// reconnect delivers chain.ClientConnected to the RUNNING wallet again (the backend connection was re-established):
+// handleChainNotifications runs syncWithChain once more — rollback loop, recovery when a recovery window is set, rescan
+// from the synced-to block.  The rescan is held in flight by the backend: reconnect returns when its RelevantTx
+// notifications have been processed; RescanFinished is sent by fc.finishHeld.  false = syncWithChain did not get to the
+// rescan within the timeout (it keeps failing and retrying).
+func (e *wenv) reconnect(timeout time.Duration) bool {
+	ch := e.fc.armHold()
+	if !e.fc.send(chain.ClientConnected{}) {
+		e.fc.disarmHold()
+		return false
+	}
+	select {
+	case <-ch:
+	case <-time.After(timeout):
+		e.fc.disarmHold()
+		return false
+	}
+	return e.fc.send(sentinel{})
+}
+
+// importWIF is the deterministic private key number k of the harness.
+func importWIF(k int) *btcutil.WIF {
+	h := sha256.Sum256([]byte(fmt.Sprintf("btcw-verif-import-key-%d", k)))
+	priv, _ := btcec.PrivKeyFromBytes(h[:])
+	wif, err := btcutil.NewWIF(priv, params, true)
+	if err != nil {
+		panic(err)
+	}
+	return wif
+}
+
+// importKey imports private key k with rescan=true from best-chain block `from` on the running wallet
+// (Wallet.ImportPrivateKey -> SubmitRescan -> rescanBatchHandler -> rescanRPCHandler -> chainClient.Rescan).  The
+// rescan is held in flight; importKey returns when the backend has evaluated the request.
+func (e *wenv) importKey(k int, from *fblock, timeout time.Duration) error {
+	if err := e.w.Unlock(prvPass, nil); err != nil {
+		return err
+	}
+	ch := e.fc.armHold()
+	bs := waddrmgr.BlockStamp{Height: from.height, Hash: from.hash, Timestamp: from.hdr.Timestamp}
+	if _, err := e.w.ImportPrivateKey(waddrmgr.KeyScopeBIP0084, importWIF(k), &bs, true); err != nil {
+		e.fc.disarmHold()
+		return err
+	}
+	select {
+	case <-ch:
+	case <-time.After(timeout):
+		e.fc.disarmHold()
+		return errors.New("rescan request not seen")
+	}
+	if !e.fc.send(sentinel{}) {
+		return errors.New("deliver-timeout")
+	}
+	return nil
 }
 
 // ---- transactions ----
